@@ -443,6 +443,15 @@ def b_dict(ex, e, st):
     return ex.new_dict(st)
 
 
+def b_set(ex, e, st):
+    if e.args or e.keywords:
+        raise OutOfSubset('set(args)')
+    r = ex.new_obj(st, 'set')
+    st.heap['$dhas'] = z3.Store(ex.harr(st, '$dhas'), rv(r), z3.K(V, z3.BoolVal(False)))
+    st.heap['$dkeys'] = z3.Store(ex.harr(st, '$dkeys'), rv(r), z3.Empty(SeqV))
+    return Val(r, 'set')
+
+
 def b_getattr(ex, e, st):
     used('getattr')
     recv = ex.ev(e.args[0], st)
@@ -622,7 +631,7 @@ def b_next(ex, e, st):
 
 
 BUILTIN_FUNCS = {'float': b_float, 'bytes': b_bytes, 'hash': b_hash, 'sorted': b_sorted, 'next': b_next, 'len': b_len, 'isinstance': b_isinstance, 'ord': b_ord, 'chr': b_chr, 'int': b_int, 'str': b_str,
-                 'bool': b_bool, 'list': b_list, 'tuple': b_tuple, 'dict': b_dict, 'getattr': b_getattr,
+                 'bool': b_bool, 'list': b_list, 'tuple': b_tuple, 'dict': b_dict, 'set': b_set, 'getattr': b_getattr,
                  'hasattr': b_hasattr, 'max': b_max, 'min': b_min, 'id': b_id, 'type': b_type, 'repr': b_repr}
 
 
@@ -713,6 +722,26 @@ def m_dict(ex, recv, name, e, st):
         if name == 'keys':
             return Val(recv.t, 'dict')     # iteration over d.keys() == iteration over d
         raise OutOfSubset('dict.%s as a value' % name)
+    if name == 'update':
+        # d.update(d2) / s.update(d2) for a dict (or set) argument: membership is the union, values of d2 win; the order sequence
+        # is only bounded (old keys stay, at most the keys of d2 are added)
+        if len(args) != 1 or e.keywords or args[0].ty not in ('dict', 'set'):
+            raise OutOfSubset('%s.update with an argument that is not statically a dict' % recv.ty)
+        r2 = rv(args[0].t)
+        has2 = z3.Select(ex.harr(st, '$dhas'), r2)
+        val2 = z3.Select(ex.harr(st, '$dval'), r2)
+        keys2 = z3.Select(ex.harr(st, '$dkeys'), r2)
+        nh = z3.Const(fresh_name('uhas'), has.sort())
+        nv = z3.Const(fresh_name('uval'), val.sort())
+        nk = z3.Const(fresh_name('ukeys'), SeqV)
+        k = z3.Const(fresh_name('uk'), V)
+        st.assume(z3.ForAll([k], z3.Select(nh, k) == z3.Or(z3.Select(has, k), z3.Select(has2, k)), patterns=[z3.Select(nh, k)]))
+        st.assume(z3.ForAll([k], z3.Select(nv, k) == z3.If(z3.Select(has2, k), z3.Select(val2, k), z3.Select(val, k)), patterns=[z3.Select(nv, k)]))
+        st.assume(z3.And(z3.Length(nk) >= z3.Length(keys), z3.Length(nk) <= z3.Length(keys) + z3.Length(keys2)))
+        st.heap['$dhas'] = z3.Store(ex.harr(st, '$dhas'), ref, nh)
+        st.heap['$dval'] = z3.Store(ex.harr(st, '$dval'), ref, nv)
+        st.heap['$dkeys'] = z3.Store(ex.harr(st, '$dkeys'), ref, nk)
+        return Val(NONE, 'none')
     if name == 'pop':
         hask = z3.Select(has, args[0].t)
         if len(args) == 1:
@@ -843,6 +872,11 @@ def call_method(ex, recv, name, e, st):
         return m_list(ex, recv, name, e, st)
     if ty is None and name in ('start', 'group', 'end') and ex.quick_unsat(st.pc, z3.Not(z3.And(is_r(recv.t), typ(rv(recv.t)) == BUILTIN_TYPES['match']))):
         return re_match_method(ex, recv, name, e, st)
+    if ty is None and name in ('append', 'extend'):
+        # untyped receiver (e.g. the result of dict.setdefault): a list method needs a list object
+        isl = z3.And(is_r(recv.t), typ(rv(recv.t)) == 1)
+        ex.raise_if(st, z3.Not(isl), 'AttributeError', 'safe/list-method-' + name, e)
+        return m_list(ex, Val(recv.t, 'list'), name, e, st)
     if ty is None and name in ('keys', 'items', 'values', 'get', 'copy', 'setdefault'):
         isd = z3.And(is_r(recv.t), typ(rv(recv.t)) == 2)
         ex.raise_if(st, z3.Not(isd), 'AttributeError', 'safe/dict-method-' + name, e)
@@ -1015,14 +1049,10 @@ def call_function(ex, finfo, recv, args, kw, e, st):
 
 
 def auto_inline_ok(finfo):
-    """loop-free, call-free bodies (data-class constructors and trivial accessors) are inlined"""
+    """loop-free bodies without a contract (data-class constructors, accessors, small helpers split off by a refactoring) are inlined;
+    the calls they make are resolved like any other call (contract, further inlining up to the depth limit, or out-of-subset)"""
     for n in ast.walk(finfo.node):
-        if isinstance(n, (ast.While, ast.For, ast.Yield, ast.Try)):
-            return False
-        if isinstance(n, ast.Call):
-            f = n.func
-            if isinstance(f, ast.Name) and f.id in ('len', 'isinstance', 'int', 'str', 'ord', 'chr', 'bool', 'hasattr', 'getattr'):
-                continue
+        if isinstance(n, (ast.While, ast.For, ast.Yield, ast.YieldFrom, ast.Try, ast.ListComp, ast.GeneratorExp, ast.DictComp, ast.SetComp, ast.Lambda)):
             return False
     return True
 
